@@ -417,7 +417,7 @@ class Queue:
         self._s.yield_point("put", q=self.name)
         self.items.append(item)
         self.puts += 1
-        self._s.note(item=item)
+        self._s.note(item=item, snap=dict(item) if type(item) is dict else item)
 
     put_nowait = put
 
@@ -435,7 +435,7 @@ class Queue:
             self._s.note(interrupt=True)
             raise self.interrupt_exc()
         item = self.items.pop(0)
-        self._s.note(item=item)
+        self._s.note(item=item, snap=dict(item) if type(item) is dict else item)
         return item
 
     def get_nowait(self):
@@ -484,6 +484,14 @@ class Thread:
         if self._target is not None:
             self._target(*self._args, **self._kwargs)
 
+    def _bootstrap(self):
+        # the end of the thread is a step of its own: between the last operation of run() and the moment the
+        # thread is no longer alive another thread may run (this is what join() is for)
+        try:
+            self.run()
+        finally:
+            self._sched.yield_point("exit")
+
     def start(self):
         s = self._sched
         if self._ct is not None:
@@ -492,7 +500,7 @@ class Thread:
         if tid is None:
             tid = "w%d" % self.index
         s.yield_point("start", target=tid)
-        self._ct = s.spawn(self.run, tid)
+        self._ct = s.spawn(self._bootstrap, tid)
         self.ident = self._ct.real.ident
 
     def join(self, timeout=None):
